@@ -15,7 +15,7 @@ _RULE = ("histories of 20-60 (thorough: 20-110) abstract steps over 8 actors (2 
 
 _common = dict(
     driver="service",
-    coq_targets=["Service/Check.vo", "Service/Proofs.vo", "Service/ProofsHist.vo", "Service/ProofsEscrow.vo", "Service/ProofsSched.vo", "Service/ProofsBatch.vo", "Service/ProofsLiab.vo", "Service/ProofsTally.vo", "Service/ProofsLive.vo", "Service/ProofsModule.vo", "Service/ProofsFresh.vo", "Service/ProofsCallback.vo", "Service/ProofsSchedule.vo", "Service/ProofsModuleHist.vo", "Service/ProofsOutcome.vo", "Service/ProofsCheck.vo", "Service/ProofsTrack.vo", "Service/ProofsBal.vo", "Service/ProofsSlash.vo", "Service/ProofsCb.vo"],
+    coq_targets=["Service/Check.vo", "Service/Proofs.vo", "Service/ProofsHist.vo", "Service/ProofsEscrow.vo", "Service/ProofsSched.vo", "Service/ProofsBatch.vo", "Service/ProofsLiab.vo", "Service/ProofsTally.vo", "Service/ProofsLive.vo", "Service/ProofsModule.vo", "Service/ProofsFresh.vo", "Service/ProofsCallback.vo", "Service/ProofsSchedule.vo", "Service/ProofsModuleHist.vo", "Service/ProofsOutcome.vo", "Service/ProofsCheck.vo", "Service/ProofsTrack.vo", "Service/ProofsBal.vo", "Service/ProofsSlash.vo", "Service/ProofsCb.vo", "Service/CheckX.vo"],
     check_module="Service.Check",
     streams=[dict(name="main", quick=80, thorough=3600), dict(name="sched", quick=20, thorough=600)],
     coq_shard=12,
@@ -42,15 +42,23 @@ PROPS["C07"] = dict(_common,
 )
 PROPS["C08"] = dict(_common,
     props_file="Props/C08.v",
-    check_fn="check_case_C08",
+    check_module="Service.CheckX",
+    check_fn="check_case_C08x",
+    streams=[dict(name="main", quick=80, thorough=3600), dict(name="sched", quick=24, thorough=600),
+             dict(name="thr", quick=12, thorough=300, check_fn="check_case_thr",
+                  codes={12: "callback-vs-batch-threshold"})],
     rule=_RULE,
     codes={1: "request-outcome", 2: "rejected-step-changed-state", 3: "oneshot-context", 4: "repeated-schedule",
-           5: "paused-issued-batch", 6: "control-by-non-consumer", 7: "callback-count", 8: "queue-marker-consistency", 9: "active-request-outside-running-batch"},
+           5: "paused-issued-batch", 6: "control-by-non-consumer", 7: "callback-count", 8: "queue-marker-consistency", 9: "active-request-outside-running-batch",
+           10: "queue-entry-at-a-past-height", 11: "running-context-without-pending-batch", 12: "callback-vs-batch-threshold"},
     explain={1: "a request changed status other than active->answered (own provider, in time) or active->expired (at its expiry height), or an id was reused, or a request outlived its expiry",
              2: "a rejected step changed an observable", 3: "a one-shot context survived its batch or issued a second batch",
              4: "a repeated running untouched context did not start batch n+1 exactly `frequency` after batch n",
              5: "a paused context issued a batch", 6: "a control message succeeded for someone who is not the consumer (or a user message on a module-owned context)",
              7: "callback invocations differ from one per completed batch (err==nil iff threshold met) / one state callback per automatic pause",
              9: "an active request whose context is not stored or whose batch is not the running current batch of its context (a batch was closed while a request still awaits its outcome)",
-             8: "a queue entry disagrees with the height marker of its context (two entries for one context) or a running batch has no expiry marker"},
+             8: "a queue entry disagrees with the height marker of its context (two entries for one context) or a running batch has no expiry marker",
+             10: "a new-batch / expired-batch queue entry is left at a height that has already passed (the end blocker of that height did not consume it)",
+             11: "a running repeated context below its total with no batch out has no pending new-batch entry at a height >= the current one and no registered expiry: its next batch never comes",
+             12: "a response callback's err==nil differs from (#outputs >= the threshold the batch had when it was issued): a threshold edit while the batch was out re-judged it"},
 )
